@@ -230,7 +230,9 @@ fn build_values(definition: &Yaml, use_speech_defs: bool, path: &Path) -> Result
 
     let result;
     if def_name.starts_with("Numbers") || def_name.ends_with("_vec") {
-         result = Contains::Vec( Rc::new( RefCell::new( get_vec_values(value.as_vec().unwrap())? ) ) );
+         let values = value.as_vec().ok_or_else(|| format!("definition list value for '{}' is not an array: found '{}'", def_name, yaml_to_type(value)))?;
+         result = Contains::Vec( Rc::new( RefCell::new( get_vec_values(values)
+                            .chain_err(||format!("while reading value '{}'", def_name))? ) ) );
     } else {
         // match value.as_vec() {
         //     Some(vec) => {
